@@ -134,14 +134,14 @@ def bad_write(f, split):
     raise AssertionError("a wrong-shape example was accepted")
 
 
-def run_history(root: Path, fmt: str, eps: int, hist, hashes=("sha256",)):
+def run_history(root: Path, fmt: str, eps: int, hist, hashes=None):
     """Execute on the real API. Returns per-session records."""
     import uuid as real_uuid
     import sedpack.io.dataset_writing as DW
     from sedpack.io import Dataset
     from sedpack.io.dataset_filler import DatasetFiller
     from sedpack.io.errors import DatasetExistsError
-    ds = sp.mk(root, fmt=fmt, eps=eps, hashes=tuple(hashes))
+    ds = sp.mk(root, fmt=fmt, eps=eps, hashes=None if hashes is None else tuple(hashes))
     counter = {"k": 0}
     class FakeUUID:
         def __init__(self, k): self.hex = f"w{k:08d}" + "0" * 23
